@@ -4,6 +4,7 @@ import (
 	"fmt"
 	"net"
 	"net/netip"
+	"os"
 	"strings"
 	"time"
 
@@ -183,7 +184,9 @@ func (c Cfg) client(f *fakeDriver) uhppote.IUHPPOTE {
 	bind := types.BindAddrFrom(netip.IPv4Unspecified(), 0)
 	bc := types.BroadcastAddr{AddrPort: c.Bcast}
 	ls := types.ListenAddrFrom(netip.IPv4Unspecified(), 60001)
-	return uhppote.NewWithDriver(bind, bc, ls, 250*time.Millisecond, devs, false, func(uhppote.Driver) uhppote.Driver { return f })
+	clientCount++
+	debug := debugClients && clientCount%4 == 0 // every fourth client in debug mode (its output goes to the discarded stdout)
+	return uhppote.NewWithDriver(bind, bc, ls, 250*time.Millisecond, devs, debug, func(uhppote.Driver) uhppote.Driver { return f })
 }
 
 func (c Cfg) json() map[string]any {
@@ -274,4 +277,18 @@ func safeCall(f func() string) (res string) {
 		}
 	}()
 	return f()
+}
+
+// debug mode is part of the client configuration: the library then prints what it sends and receives.  The harness
+// discards its own stdout while such clients exist (results travel through files).
+var debugClients bool
+var clientCount int
+
+func discardStdout() func() {
+	old := os.Stdout
+	if f, err := os.OpenFile(os.DevNull, os.O_WRONLY, 0); err == nil {
+		os.Stdout = f
+		return func() { os.Stdout = old; f.Close() }
+	}
+	return func() {}
 }
